@@ -132,6 +132,7 @@ type Exec struct {
 	sideTable map[interface{}]interface{}
 	touched   map[string]bool
 	touchSeen map[*Term]bool
+	decided   map[*Term]bool
 	ranges    map[string][2]int64 // declared range of verifIntIn inputs
 }
 
@@ -276,10 +277,22 @@ func (h *HarnessRun) noteError(s string) {
 }
 
 // branch decides a symbolic condition, forking if both sides are feasible.
-func (ex *Exec) branch(c *Term, tag string) bool {
+func (ex *Exec) branch(c *Term, tag string) (res bool) {
 	if c.IsConst() {
 		return c.B
 	}
+	// a condition already decided on this path (same term) needs neither a query nor a decision entry
+	if ex.decided == nil {
+		ex.decided = map[*Term]bool{}
+	}
+	inner, neg := c, false
+	if c.Op == "not" {
+		inner, neg = c.Args[0], true
+	}
+	if v, ok := ex.decided[inner]; ok {
+		return v != neg
+	}
+	defer func() { ex.decided[inner] = res != neg }()
 	if ex.pos < len(ex.decisions) {
 		d := ex.decisions[ex.pos]
 		ex.pos++
